@@ -8,6 +8,10 @@ from fractions import Fraction
 
 from vcheck import Case, gz, gzlist, gnlist, gnmat, gq
 import tgen
+try:
+    from props import c20_w3 as W3
+except ImportError:          # executed from tools/props
+    import c20_w3 as W3
 
 PROP = "C20"
 LEVEL = "proof"
@@ -24,13 +28,24 @@ RULE = ("all shapes with <= 8 cells + seeded random shapes (orders 1-5, singleto
         "teneye for (order,size) in {2}x{1..4}, {4}x{1..3}, {6}x{2}; malformed stream: negative / zero / empty / fractional "
         "shapes for tenones, tenzeros, tenrand, tendiag, sptendiag, orders <= 0 / odd and negative sizes for teneye, "
         "densities outside (0,1], 2-d element arrays; aggregator inputs with pairwise distinct subscripts and zero values; "
-        "non-trivial = more than one cell and not constant")
+        "wave 3 (c20_w3.py): function outputs / element vectors / subscript and value arrays as F-, C-ordered, transposed, strided and "
+        "negatively strided views of int64 and float dtype, wrong shapes and counts, zero-size shapes, a second call with the same "
+        "function object / arrays, the caller's vector overwritten afterwards; tenones/tenzeros/tendiag/teneye with order='C'; "
+        "tendiag/sptendiag with repeated, several-zero, all-zero element vectors, NO element, the EMPTY shape, zero and negative sizes; "
+        "from_aggregator without a pair, with sizes below one, without a shape, and duplicate-heavy unsorted inputs in which groups are "
+        "planted that each of the 13 reducer names (mean included) sends to zero; ktensor.from_function with zero-size modes; teneye "
+        "(6,1), (8,1), (6,2), numpy-integer arguments; sequences of 1-4 random generator calls under ONE global seed (captured uniform "
+        "stream = stream of RandomState(seed), global state afterwards = that generator's state, sequence reproducible, every call "
+        "checked by its model); non-trivial = more than one cell and not constant")
 CORRESPONDENCE_ONLY = [
     "tenrand / sptenrand: that numpy's uniform draws lie in [0,1) is checked on the drawn samples only (a property of numpy's "
     "generator); that the tensor's values ARE the draws is proved (C20_from_function_values, C20_sprand_values)",
     "request normalisation of sptensor.from_function / sptenrand: the double products prod(shape)*nonzeros and "
     "prod(shape)*density are computed by numpy and enter the model as inputs (C20_request_float_product: exact product => "
     "exact-rational model)",
+    "global-seed discipline of the random generators (the uniform calls they make are exactly the next draws of the global "
+    "generator seeded by numpy.random.seed, nothing else is drawn and nothing is reseeded): observed on generated sequences of "
+    "calls against an independent numpy.random.RandomState(seed); numpy's generator itself is not modelled",
 ]
 ASSUMPTIONS = [
     "random draws are inputs of the model: the theorems speak about the post-processing of an arbitrary matrix of draws; "
@@ -44,12 +59,18 @@ EXPLANATION = ("Deterministic generators: theorems for all shapes/values over an
                "of the captured stream; additionally every seeded call is executed twice and must coincide). After the repairs "
                "of C20-N1/N2/N4 only the repaired behaviour is accepted; the alternative 'what the property asks' is accepted "
                "only inside the trigger regions of the open findings A-46 / C20-N3, which the Coq check computes from the case "
-               "(first captured draw has a repeated row; request equals the tensor size).")
+               "(first captured draw has a repeated row; request equals the tensor size); inside the A-46 region the exact "
+               "behaviour of the proposed repair (union of all draws as a fallback, C20_sprand_union_repair) is accepted too. "
+               "Corner requests of tendiag / sptendiag / from_aggregator (no element, empty shape, no pair, sizes below one) are "
+               "checked against request models that state what the property demands (C20_tendiag_request, C20_sptendiag_request, "
+               "C20_aggregator_request); pyttb's two deviations are the open findings C20-N6 / C20-N7 (triggers).")
 
 REDUCERS = {
     "sum": "RSum", "max": "RMax", "min": "RMin", "prod": "RProd", "first": "RFirst", "last": "RLast", "len": "RLen",
     "np.sum": "RSum", "np.max": "RMax", "np.min": "RMin", "first_minus_rest": "RFirstMinusRest", "ten_first_plus_last": "RTenFirstPlusLast",
 }
+# wave 3: generated only with group sums divisible by the group size (exact); not in the round-robin of the older streams
+REDUCERS_W3 = dict(REDUCERS, **{"mean": "RMean", "np.mean": "RMean"})
 
 
 def _reducer(np, name):
@@ -59,6 +80,8 @@ def _reducer(np, name):
         return np.max
     if name == "np.min":
         return np.min
+    if name == "np.mean":
+        return np.mean
     if name == "first_minus_rest":
         return lambda x: x[0] - np.sum(x[1:])
     if name == "ten_first_plus_last":
@@ -165,7 +188,7 @@ def gen_cases(rng, tier):
         reqs = [Fraction(r) for r in sorted(reqs)] + [Fraction(-1), Fraction(1, 2), Fraction(1, 4), Fraction(3, 4), Fraction(1, 16),
                                                      Fraction(15, 16), Fraction(11, 4), Fraction(1, 1024)]
         for r in reqs:
-            for rep in range(3 if big else 1):
+            for rep in range(2 if big else 1):      # (3 repetitions made 2 GB coqc shards: killed on a loaded machine)
                 fn = rng.choice(["ones", "counter", "uniform"])
                 cases.append(Case("sp_from_function", {"shape": list(shp), "p": r.numerator, "q": r.denominator, "fn": fn, "seed": seed},
                                   total > 1))
@@ -227,6 +250,7 @@ def gen_cases(rng, tier):
         cases.append(Case(op, {"e": [[1, 2, 3]], "shape": [3, 3]}, True))      # one non-trivial dimension: a vector
     for kw in ("none", "both"):
         cases.append(Case("sptenrand_kw", {"shape": [2, 2], "kw": kw}, True))
+    cases += W3.gen(rng, tier)
     return cases
 
 
@@ -270,19 +294,25 @@ def _exc(ex):
     return {"exc": type(ex).__name__, "msg": str(ex)[:200]}
 
 
-def _call_random(np, ttb, c):
+def _call_random(np, ttb, c, reseed=True):
     a = c.args
     shp = tuple(a["shape"])
     req = Fraction(a["p"], a["q"])
     reqf = float(req) if req.denominator != 1 else int(req)
-    np.random.seed(a["seed"])
+    dens = float(req)
+    if a.get("ntype") == "np":           # the request as a numpy scalar (np.prod(shape) // 2, a float32 density, ...)
+        reqf = np.int64(reqf) if isinstance(reqf, int) else np.float32(reqf)
+        dens = np.float32(dens)
+        assert Fraction(float(dens)) == req and Fraction(float(reqf)) == req
+    if reseed:
+        np.random.seed(a["seed"])
     cap = Capture(np)
     nvals = []
     with cap:
         try:
             if c.op == "sptenrand":
                 if a["mode"] == "density":
-                    S = ttb.sptenrand(shp, density=float(req))
+                    S = ttb.sptenrand(shp, density=dens)
                 else:
                     S = ttb.sptenrand(shp, nonzeros=reqf)
             else:
@@ -299,6 +329,26 @@ def _call_random(np, ttb, c):
         except Exception as ex:
             res = _exc(ex)
     return res, [c_.copy() for c_ in cap.calls]
+
+
+def _pack_random(np, c, res, calls):
+    """observation of one random sparse generator call from its result and the captured uniform calls"""
+    uses_uniform = c.op == "sptenrand" or c.args.get("fn") == "uniform"
+    # calls in order: the subscript draws (each nz x N), then - if the value function draws - ONE call of shape (nnz, 1)
+    if uses_uniform and "exc" not in res and calls:
+        vcalls = [[_numer(float(u)) for u in np.ravel(calls[-1])]]
+        calls_d = calls[:-1]
+    else:
+        vcalls, calls_d = [], calls
+    draws = [[[_numer(float(u)) for u in row] for row in np.atleast_2d(d)] for d in calls_d]
+    return {"res": res, "draws": draws, "vcalls": vcalls, "uses_uniform": uses_uniform}
+
+
+def _obs_tenrand(np, T, calls):
+    flat = np.ravel(T.data, order="F")
+    return {"shape": [int(d) for d in T.shape], "data_shape": [int(d) for d in T.data.shape],
+            "m": [_numer(float(u)) for u in flat], "in_range": bool(np.all((flat >= 0) & (flat < 1))),
+            "draws": [[_numer(float(u)) for u in np.ravel(d)] for d in calls]}
 
 
 def run_impl(c):
@@ -318,11 +368,9 @@ def run_impl(c):
                 T = ttb.tenrand(tuple(a["shape"]))
             np.random.seed(a["seed"])
             T2 = ttb.tenrand(tuple(a["shape"]))
-            flat = np.ravel(T.data, order="F")
-            return {"shape": [int(d) for d in T.shape], "data_shape": [int(d) for d in T.data.shape],
-                    "m": [_numer(float(u)) for u in flat], "in_range": bool(np.all((flat >= 0) & (flat < 1))),
-                    "draws": [[_numer(float(u)) for u in np.ravel(d)] for d in cap.calls],
-                    "repro": bool(np.array_equal(T.data, T2.data))}
+            o = _obs_tenrand(np, T, cap.calls)
+            o["repro"] = bool(np.array_equal(T.data, T2.data))
+            return o
         if c.op == "from_function":
             out = np.array(a["ovals"], dtype=float).reshape(tuple(a["oshape"]), order="F")
             out = np.ascontiguousarray(out) if a["kind"] != "same_F" else np.asfortranarray(out)
@@ -353,21 +401,25 @@ def run_impl(c):
             subs = np.array(a["subs"], dtype=int).reshape((len(a["subs"]), a["N"]))
             vals = np.array(a["vals"], dtype=float).reshape((len(a["vals"]), 1))
             shp = None if a["shape"] is None else tuple(a["shape"])
-            S = ttb.sptensor.from_aggregator(subs.copy(), vals.copy(), shp, _reducer(np, a["reducer"]))
-            return {"ok": _sp_obs(np, S)}
+            mem = a.get("mem")
+            if mem is None:
+                S = ttb.sptensor.from_aggregator(subs.copy(), vals.copy(), shp, _reducer(np, a["reducer"]))
+                return {"ok": _sp_obs(np, S)}
+            # memory layouts: F-ordered / strided subscripts, integer / strided values; inputs must stay untouched
+            subs_in = W3.relayout(np, subs, mem[0])
+            vals_in = W3.relayout(np, vals if mem[1] != "int" else vals.astype(np.int64), "strided" if mem[1] == "strided" else "C")
+            S = ttb.sptensor.from_aggregator(subs_in, vals_in, shp, _reducer(np, a["reducer"]))
+            o = {"ok": _sp_obs(np, S)}
+            o["inputs_kept"] = bool(np.array_equal(subs_in, subs) and np.array_equal(vals_in, vals))
+            S2 = ttb.sptensor.from_aggregator(subs_in, vals_in, shp, _reducer(np, a["reducer"]))      # a second call on the same arrays
+            o["second_same"] = _sp_obs(np, S2) == o["ok"] == _sp_obs(np, S)
+            return o
         if c.op in ("sp_from_function", "sptenrand"):
             res, calls = _call_random(np, ttb, c)
             res2, calls2 = _call_random(np, ttb, c)
-            uses_uniform = c.op == "sptenrand" or a.get("fn") == "uniform"
-            # calls in order: the subscript draws (each nz x N), then - if the value function draws - ONE call of shape (nnz, 1)
-            if uses_uniform and "exc" not in res and calls:
-                vcalls = [[_numer(float(u)) for u in np.ravel(calls[-1])]]
-                calls_d = calls[:-1]
-            else:
-                vcalls, calls_d = [], calls
-            draws = [[[_numer(float(u)) for u in row] for row in np.atleast_2d(d)] for d in calls_d]
-            return {"res": res, "draws": draws, "vcalls": vcalls, "uses_uniform": uses_uniform,
-                    "repro": res == res2 and all(np.array_equal(x, y) for x, y in zip(calls, calls2)) and len(calls) == len(calls2)}
+            o = _pack_random(np, c, res, calls)
+            o["repro"] = res == res2 and all(np.array_equal(x, y) for x, y in zip(calls, calls2)) and len(calls) == len(calls2)
+            return o
         if c.op in ("tenones_z", "tenzeros_z"):
             fn = ttb.tenones if c.op == "tenones_z" else ttb.tenzeros
             return {"ok": tgen.obs_dense(np, fn(tuple(a["shape"])))}
@@ -392,8 +444,11 @@ def run_impl(c):
             S = ttb.sptenrand(tuple(a["shape"])) if a["kw"] == "none" else ttb.sptenrand(tuple(a["shape"]), 0.5, 2)
             return {"ok": _sp_obs(np, S)}
         if c.op == "teneye":
-            T = ttb.teneye(a["m"], a["n"])
+            kw = {"order": a["order"]} if a.get("order") else {}
+            T = ttb.teneye(np.int64(a["m"]), np.int64(a["n"]), **kw) if a.get("npint") else ttb.teneye(a["m"], a["n"], **kw)
             return {"shape": [int(d) for d in T.shape], "data": [Fraction(float(x)) for x in np.ravel(T.data, order="F")]}
+        if c.op in W3.OPS:
+            return W3.run(c, np, ttb)
     except Exception as ex:
         return _exc(ex)
     raise ValueError(c.op)
@@ -467,10 +522,10 @@ def coq_check(c, o):
             return "false"
         return f"sp_agrees {gsp(o['ok'])} (zsptendiag {gzlist(a['e'])} {gshape_opt(a['shape'])})"
     if c.op == "aggregator":
-        model = (f"(zaggregator {gshape_opt(a['shape'])} {a['N']} {gnmat(a['subs'])} {gzlist(a['vals'])} {REDUCERS[a['reducer']]})")
+        model = (f"(zaggregator {gshape_opt(a['shape'])} {a['N']} {gnmat(a['subs'])} {gzlist(a['vals'])} {REDUCERS_W3[a['reducer']]})")
         if "exc" in o:
             return f"opt_sp_agrees None {model}" if o["exc"] in REJECT else "false"
-        if not _sp_ok(o["ok"]):
+        if not _sp_ok(o["ok"]) or not o.get("inputs_kept", True) or not o.get("second_same", True):
             return "false"
         return f"opt_sp_agrees (Some {gsp(o['ok'])}) {model}"
     if c.op in ("sp_from_function", "sptenrand"):
@@ -566,6 +621,8 @@ def coq_check(c, o):
         x = "[" + "; ".join(gq(Fraction(p, q)) for p, q in a["x"]) + "]"
         A = tgen.gqdense(o["shape"], o["data"])
         return f"teneye_agrees {a['m']} {a['n']} {A} && teneye_identity_ok {A} {a['m']} {a['n']} {x}"
+    if c.op in W3.OPS:
+        return W3.check(c, o)
     raise ValueError(c.op)
 
 
@@ -574,7 +631,7 @@ def _agg_expected(a):
     groups = {}
     for s, v in zip(a["subs"], a["vals"]):
         groups.setdefault(tuple(s), []).append(v)
-    red = REDUCERS[a["reducer"]]
+    red = REDUCERS_W3[a["reducer"]]
 
     def f(l):
         if red == "RSum":
@@ -593,6 +650,8 @@ def _agg_expected(a):
             return len(l)
         if red == "RFirstMinusRest":
             return l[0] - sum(l[1:])
+        if red == "RMean":
+            return Fraction(sum(l), len(l))
         return 10 * l[0] + l[-1]
     return {k: f(v) for k, v in groups.items() if f(v) != 0}
 
@@ -761,10 +820,12 @@ def oracle(c, o):
             want = nrm2 ** (m // 2 - 1) * x[i1]
             if abs(acc - want) > Fraction(1, 10 ** 6) * max(1, abs(want)):
                 return f"ttsv(I,x)[{i1}] = {float(acc)} != {float(want)}"
+    elif c.op in W3.OPS:
+        return W3.oracle(c, o)
     return None
 
 
-# ---------------------------------------------------------------- known findings (open: A-46, C20-N3)
+# ---------------------------------------------------------------- known findings (open: A-46, C20-N3, C20-N6, C20-N7, C20-N8)
 def _total(c):
     return math.prod(c.args["shape"])
 
@@ -805,11 +866,16 @@ INPUT_CLASSES = {
     "request_equals_size": lambda c: c.op in ("sp_from_function", "sptenrand")
     and ((_req(c) == 1) if (c.op == "sptenrand" and c.args["mode"] == "density") else _req(c) == _total(c)),
 }
-# C20-N5: a zero-size request reaches ttb.tensor with 1-d data; the reshape is skipped for empty data
-INPUT_CLASSES["zero_size_tenrand"] = lambda c: c.op == "tenrand_z" and 0 in c.args["shape"]
-# C20-N5 is attributed through its trigger (the model is the CORRECT behaviour: data has the requested shape, a negative size
-# is rejected); A-46 / C20-N3 are handled inside the Coq check (see above).
-TRIGGERS = {"zero_size_tenrand": INPUT_CLASSES["zero_size_tenrand"]}
+# wave 3 (open, proposed fixes in fixes/): the model is the CORRECT behaviour, mismatches inside these classes are attributed
+# C20-N6: tendiag with NO element and a non-empty requested shape crashes in tensor.__setitem__ (max of an empty array)
+INPUT_CLASSES["tendiag_no_element"] = lambda c: (c.op == "diag2" and c.args["kind"] == "tendiag" and not c.args["e"]
+                                                 and bool(c.args["shape"]))
+# C20-N7: sptendiag with elements and the EMPTY requested shape silently returns an empty order-0 tensor
+INPUT_CLASSES["sptendiag_empty_shape"] = lambda c: (c.op == "diag2" and c.args["kind"] == "sptendiag" and bool(c.args["e"])
+                                                    and c.args["shape"] == [])
+# C20-N8: sptenrand rejects a request given as a numpy scalar other than np.float64 (isinstance(.., (int, float)))
+INPUT_CLASSES["numpy_typed_request"] = lambda c: c.op == "sptenrand" and c.args.get("ntype") == "np"
+TRIGGERS = {k: INPUT_CLASSES[k] for k in ("tendiag_no_element", "sptendiag_empty_shape", "numpy_typed_request")}
 
 
 def _w_a46():
@@ -829,16 +895,36 @@ def _w_full():
     return None if S.nnz == 4 else f"density 1.0 returned nnz={S.nnz}"
 
 
-def _w_zero_size():
+def _w_tendiag_no_element():
+    import numpy as np
     import pyttb as ttb
     try:
-        T = ttb.tenrand((3, 0, -1))
+        T = ttb.tendiag(np.array([]), (2, 2))
+    except Exception as ex:
+        return f"tendiag(np.array([]), (2,2)) raised {type(ex).__name__}: {str(ex)[:80]}"
+    return None if T.shape == (2, 2) and not T.data.any() else f"tendiag(np.array([]), (2,2)) returned shape {T.shape}"
+
+
+def _w_sptendiag_empty_shape():
+    import numpy as np
+    import pyttb as ttb
+    try:
+        S = ttb.sptendiag(np.array([1.0, 2.0]), ())
     except (ValueError, AssertionError):
-        T = None
-    if T is not None:
-        return f"tenrand((3,0,-1)) returned a tensor of shape {T.shape} with data.shape {T.data.shape}"
-    T = ttb.tenrand((0, 2))
-    return None if T.data.shape == (0, 2) else f"tenrand((0,2)) has shape {T.shape} but data.shape {T.data.shape}"
+        return None
+    return f"sptendiag([1,2], ()) returned a sparse tensor of shape {S.shape} with nnz={S.nnz}: the elements are dropped silently"
 
 
-WITNESSES = {"A-46": _w_a46, "C20-N3": _w_full, "C20-N5": _w_zero_size}
+def _w_numpy_typed():
+    import numpy as np
+    import pyttb as ttb
+    np.random.seed(0)
+    try:
+        S = ttb.sptenrand((3, 4), nonzeros=np.prod((3, 4)) // 4)
+    except ValueError as ex:
+        return f"sptenrand((3,4), nonzeros=np.prod((3,4))//4) raised ValueError: {str(ex)[:80]}"
+    return None if S.nnz == 3 else f"nnz={S.nnz}"
+
+
+WITNESSES = {"A-46": _w_a46, "C20-N3": _w_full, "C20-N6": _w_tendiag_no_element, "C20-N7": _w_sptendiag_empty_shape,
+             "C20-N8": _w_numpy_typed}
